@@ -891,6 +891,184 @@ def gen_arip(ctx: Ctx, count=None):
 
 
 # ---------------------------------------------------------------------------------------
+# reuse / isolation: the conversions never modify or alias their inputs, and a later call that reuses the same input
+# objects gives what it gives on fresh copies.  Case lines (values as num/den | nan):
+#   reuse conv <F> <start> <nv> <n> v… | agg <T> <method> <disc> <sel> ; dis <T> <dmethod> ; …
+#   reuse arip <F> <T> <form> <agg> <tstart> <nT> t… | <start> <n> low… | <start> <n> low… | …
+# ---------------------------------------------------------------------------------------
+
+def snap(x):
+    return (None if x.start is None else (LETTER.get(x.frequency), int(x.start.serial)), np.array(x.data, dtype=float, copy=True))
+
+
+def same_snap(a, b):
+    return a[0] == b[0] and a[1].shape == b[1].shape and bool(np.all((a[1] == b[1]) | (np.isnan(a[1]) & np.isnan(b[1]))))
+
+
+def show_snap(a):
+    return f"start={a[0]} shape={a[1].shape} data={a[1].ravel()[:8].tolist()}"
+
+
+def oracle_reuse(ctx: Ctx, line: str):
+    head, *parts = [p.strip() for p in line.split("|")]
+    ws = head.split()
+    kind = ws[1]
+    case = {"line": line}
+    if kind == "conv":
+        f, start, nv, n = ws[2], int(ws[3]), int(ws[4]), int(ws[5])
+        vals = [vparse(w) for w in ws[6:]]
+        rows = [vals[i * nv:(i + 1) * nv] for i in range(n)]
+        x = mk_series(f, start, nv, rows)
+        before = snap(x)
+        ops = [o.split() for o in parts[0].split(";") if o.strip()]
+        for k, op in enumerate(ops):
+            sel = parse_select(op[4]) if op[0] == "agg" else None
+            sel_before = None if sel is None else list(sel)
+
+            def call(obj, sel_obj):
+                if op[0] == "agg":
+                    return ir.aggregate(obj, FREQ[op[1]], method=op[2], discard_missing=(op[3] == "1"), select=sel_obj)
+                return ir.disaggregate(obj, FREQ[op[1]], method=op[2])
+            try:
+                got = snap(call(x, sel))
+            except Exception as e:
+                got = err_kind(e)
+            try:
+                fresh = snap(call(mk_series(f, start, nv, rows), None if sel_before is None else list(sel_before)))
+            except Exception as e:
+                fresh = err_kind(e)
+            now = snap(x)
+            if not same_snap(before, now):
+                ctx.fail("input-mutated", case, f"step {k} ({' '.join(op)}) changed its input series: {show_snap(before)} -> {show_snap(now)}")
+                return
+            if sel is not None and sel != sel_before:
+                ctx.fail("input-mutated", case, f"step {k} changed the select list {sel_before} -> {sel}")
+                return
+            ok = (got == fresh) if isinstance(got, str) or isinstance(fresh, str) else same_snap(got, fresh)
+            if not ok:
+                ctx.fail("reuse-differs", case, f"step {k} ({' '.join(op)}) on the reused series differs from the same call on a fresh copy")
+                return
+        return
+    # arip with one target object shared by several calls
+    f, t, form, aggspec = ws[2], ws[3], ws[4], ws[5]
+    tstart, n_t = int(ws[6]), int(ws[7])
+    tvals = [vparse(w) for w in ws[8:8 + n_t]]
+    agg = aggspec if aggspec in AGG_VEC else tuple(float(Fr(z)) for z in aggspec.split(","))
+    w = FVAL[t] // FVAL[f]
+    target = ir.Series(start=CLS[t](tstart), values=np.array(tvals, dtype=float))
+    tbefore = snap(target)
+    tmap = as_map(tbefore[0][1] if tbefore[0] else None, tbefore[1].tolist())
+    for k, part in enumerate(parts):
+        pw = part.split()
+        start, n = int(pw[0]), int(pw[1])
+        low = [vparse(z) for z in pw[2:2 + n]]
+        x = mk_series(f, start, 1, [[v] for v in low])
+        xbefore = snap(x)
+        try:
+            y = ir.disaggregate(x, FREQ[t], method="arip", model=(form, agg), target=target)
+            got = snap(y)
+        except Exception as e:
+            got = err_kind(e)
+        tnow = snap(target)
+        if not same_snap(tbefore, tnow):
+            ctx.fail("input-mutated", case, f"call {k} (low series {start}+{n}) changed the caller's target series: {show_snap(tbefore)} -> {show_snap(tnow)}")
+            return
+        if not same_snap(xbefore, snap(x)):
+            ctx.fail("input-mutated", case, f"call {k} changed the low-frequency input series")
+            return
+        try:
+            fresh_t = ir.Series(start=CLS[t](tstart), values=np.array(tvals, dtype=float))
+            fresh = snap(ir.disaggregate(mk_series(f, start, 1, [[v] for v in low]), FREQ[t], method="arip", model=(form, agg), target=fresh_t))
+        except Exception as e:
+            fresh = err_kind(e)
+        if isinstance(got, str) or isinstance(fresh, str):
+            if got != fresh:
+                ctx.fail("reuse-differs", case, f"call {k}: {got if isinstance(got, str) else 'ok'} with the reused target, {fresh if isinstance(fresh, str) else 'ok'} with a fresh one")
+                return
+            continue
+        if not (got[0] == fresh[0] and got[1].shape == fresh[1].shape and np.allclose(got[1], fresh[1], rtol=1e-9, atol=1e-9, equal_nan=True)):
+            ctx.fail("reuse-differs", case, f"call {k} with the reused target object differs from the same call with a fresh target")
+            return
+        # the targets the caller passed (original values) that fall into this call's span are met
+        hs = period_containing(t, period_days(f, start)[0])
+        out = got[1][:, 0]
+        win = [tmap.get(hs + j, [NAN])[0] for j in range(n * w)]
+        av = AGG_VEC[agg](w) if isinstance(agg, str) else list(agg)
+        if arip_exact_minimiser(f, t, form, low_effective(low, win, w), av, win) is None:
+            ctx.count("reuse:arip-dependent-constraints-skipped")
+            continue
+        scale = max(1.0, float(np.nanmax(np.abs(out))))
+        for j in range(n * w):
+            tv = tmap.get(hs + j, [NAN])[0]
+            if math.isfinite(tv) and not abs(out[j] - tv) <= 1e-8 * scale:
+                ctx.fail("arip-targets", case, f"call {k}: target {tv} at high period {hs + j} (inside the span) but output {out[j]}")
+                return
+
+
+def gen_reuse(ctx: Ctx):
+    rng = ctx.rng.fork("reuse")
+    lines = []
+    for _ in range(ctx.n(40, 300)):
+        f = rng.choice(["M", "Q", "H", "Y", "D"])
+        nv = rng.choice([1, 1, 2])
+        if f == "D":
+            start = dt.date(rng.choice([1999, 2000, 2020]), rng.randint(1, 12), rng.randint(1, 28)).toordinal()
+            n = rng.randint(1, 80)
+        else:
+            start = rng.choice([1999, 2020]) * FVAL[f] + rng.randint(0, FVAL[f] - 1)
+            n = rng.randint(1, 2 * FVAL[f] + 3)
+        rows = gen_rows(rng, n, nv, rng.choice([0.0, 0.3]))
+        ops = []
+        for _ in range(rng.randint(2, 5)):
+            lower = [g for g in REG if FVAL[g] < FVAL[f]]
+            higher = [g for g in REG if FVAL[g] > FVAL[f]]
+            if lower and (not higher or rng.chance(0.6)):
+                k = FVAL[f] // FVAL[rng.choice(lower)] if f != "D" else 28
+                sel = "-" if rng.chance(0.7) else ",".join(str(rng.randint(0, 1)) for _ in range(rng.randint(1, 2)))
+                ops.append(f"agg {rng.choice(lower)} {rng.choice([m for m in METHODS if m != 'prod'])} {rng.randint(0, 1)} {sel}")
+            elif higher:
+                ops.append(f"dis {rng.choice(higher)} {rng.choice(DMETHODS)}")
+        if not ops:
+            continue
+        vals = " ".join(vtext(v) for r in rows for v in r)
+        lines.append(f"reuse conv {f} {start} {nv} {n} {vals} | " + " ; ".join(ops))
+        ctx.count("reuse:conv")
+    for _ in range(ctx.n(30, 200)):
+        hi, lo = rng.choice(PAIRS)
+        w = FVAL[hi] // FVAL[lo]
+        base = rng.choice([1999, 2020]) * FVAL[lo] + rng.randint(0, FVAL[lo] - 1)
+        total = rng.randint(3, 5 if w >= 6 else 7)            # low periods covered by the target
+        tstart = base * w
+        tvals = [NAN] * (total * w)
+        for _ in range(rng.randint(2, 2 + total)):
+            tvals[rng.randint(0, total * w - 1)] = float(rng.randint(8, 60)) / 4
+        tvals[0] = tvals[0] if not isnan(tvals[0]) else 5.0      # a Series is trimmed: observed ends
+        tvals[-1] = tvals[-1] if not isnan(tvals[-1]) else 7.5
+        form = rng.choice(["diff", "rate"])
+        aggspec = rng.choice(["sum", "mean", "last"])
+        calls = []
+        spans = [(0, total), (rng.randint(0, 1), rng.randint(2, max(2, total - 1))), (0, total)]
+        rng.shuffle(spans)
+        for a, b in spans[:rng.randint(2, 3)]:
+            b = max(b, a + 2)
+            low = [float(rng.randint(40, 90)) / 2 for _ in range(b - a)]
+            calls.append(f"{base + a} {b - a} " + " ".join(vtext(v) for v in low))
+        lines.append(f"reuse arip {lo} {hi} {form} {aggspec} {tstart} {len(tvals)} " + " ".join(vtext(v) for v in tvals) + " | " + " | ".join(calls))
+        ctx.count("reuse:arip")
+    return lines
+
+
+def run_reuse_stream(ctx: Ctx, lines):
+    for l in lines:
+        oracle_reuse(ctx, l)
+        ctx.evaluations += 1
+        ws = l.split()
+        ctx.nontriv(("reuse", ws[1], ws[2], l.count("|") + l.count(";")))
+    if lines:
+        ctx.sample({"stream": "reuse", "request": lines[-1][:200]})
+
+
+# ---------------------------------------------------------------------------------------
 # streams
 # ---------------------------------------------------------------------------------------
 
@@ -969,6 +1147,7 @@ def corpus_cases():
 def run_lines(ctx: Ctx, lines, name, with_model=True):
     ser = [l for l in lines if l.split()[0] in ORACLES]
     ar = [l for l in lines if l.split()[0] == "aripq"]
+    run_reuse_stream(ctx, [l for l in lines if l.split()[0] == "reuse"])
     if ser:
         run_series_stream(ctx, name, ser, with_model)
     if ar:
@@ -1009,6 +1188,7 @@ def run(ctx: Ctx):
     run_series_stream(ctx, "disaggregate-daily", gen_dis_daily(ctx))
     run_series_stream(ctx, "roundtrip", gen_rt(ctx))
     run_arip_stream(ctx, gen_arip(ctx))
+    run_reuse_stream(ctx, gen_reuse(ctx))
     ctx.exhaustive = False
     ctx.extra["exhaustive_parts"] = ("every start segment of the 6 regular pairs; every NaN mask of single-variant series up to length "
                                      + ("7" if ctx.quick else "9") + " (aggregate) and 5 (disaggregate)")
@@ -1022,6 +1202,7 @@ def search(ctx: Ctx, seeds):
     for gen in (gen_agg_regular, gen_agg_daily, gen_agg_daily_boundaries, gen_agg_select, gen_dis, gen_dis_daily, gen_rt):
         run_series_stream(ctx, "search", gen(ctx), with_model=False)
     run_arip_stream(ctx, gen_arip(ctx, 300), with_model=False)
+    run_reuse_stream(ctx, gen_reuse(ctx))
 
 
 def replay(ctx: Ctx, payload):
